@@ -52,6 +52,7 @@ func checkC01(ctx *Ctx, r *Report) {
 	c01GoNamedDateTimeIsAlias(ctx, r)
 	c01GoTemplateVariablesEscaped(ctx, r)
 	c01SixthRound(ctx, r)
+	c01SeventhRound(ctx, r, true)
 	c01LoopLocalResult(ctx, r)
 	c12UnionWrapperClassified(ctx, r)
 	c01AbsentDefaultedField(ctx, r)
@@ -3408,4 +3409,152 @@ func c11SeventhRound(ctx *Ctx, r *Report, roundTrips bool) {
 	}
 	r.Count("hunted clauses of the round-trip rules (7th round)", n)
 	r.Floor("hunted clauses of the round-trip rules (7th round)", 4)
+}
+
+// c01SeventhRound — sixth hunt of C01:
+//   - `properties` written next to `allOf` belong to the schema: walkAllOf of the JSON Schema and OpenAPI front-ends reads
+//     them (and walks the schema as an object for one more branch);
+//   - OpenAPI: an object component that accepts null is declared as the struct it describes (declareDefinition clears the
+//     nullability of a struct) and what refers to it carries the nullability (walkRef sets it under a test on the
+//     properties of the referred schema) — Go declared `type Inner *struct{…}` and a constructor returning `&Inner{}`;
+//   - (finding) Go declares a field that refers to a named constant with the constant's own type and drops the
+//     nullability an optional field was given: `offset?: #Zero` is `Offset int64 json:"offset,omitempty"` and an explicit
+//     0 is not written back.
+func c01SeventhRound(ctx *Ctx, r *Report, roundTrips bool) {
+	n := 0
+	for _, rel := range []string{"internal/jsonschema", "internal/openapi"} {
+		p := ctx.Pkg(rel)
+		if p == nil {
+			r.Undecided("anchor lost: %s", rel)
+			continue
+		}
+		fd := c12Method(p, "walkAllOf")
+		if fd == nil {
+			r.Undecided("anchor lost: %s walkAllOf", rel)
+			continue
+		}
+		info := p.TypesInfo
+		reads, walks := false, false
+		ast.Inspect(fd.Body, func(m ast.Node) bool {
+			switch x := m.(type) {
+			case *ast.SelectorExpr:
+				if x.Sel.Name == "Properties" {
+					reads = true
+				}
+			case *ast.CallExpr:
+				if f := callee(info, x); f != nil && f.Name() == "walkObject" {
+					walks = true
+				}
+			}
+			return true
+		})
+		n++
+		r.Check(reads && walks, "frontier/allof-sibling-properties-read", rel+".walkAllOf reads a schema that holds allOf", fd.Pos(), "the properties written next to allOf make one more branch",
+			rel+".walkAllOf walks the branches of the composition only: `Derived: {allOf: [$ref Base], required: [extra], properties: {extra: integer}}` becomes `type Derived struct{ Base }` — the accepted document {\"id\":\"i\",\"extra\":3} is re-encoded {\"id\":\"i\"}, which the schema refuses")
+	}
+	if p := ctx.Pkg("internal/openapi"); p != nil {
+		info := p.TypesInfo
+		if fd := c12Method(p, "declareDefinition"); fd == nil {
+			r.Undecided("anchor lost: openapi.generator.declareDefinition")
+		} else {
+			clears := false
+			ast.Inspect(fd.Body, func(m ast.Node) bool {
+				is, ok := m.(*ast.IfStmt)
+				if !ok || !strings.Contains(exprString(is.Cond), "IsStruct()") {
+					return true
+				}
+				ast.Inspect(is.Body, func(q ast.Node) bool {
+					if as, ok := q.(*ast.AssignStmt); ok && len(as.Lhs) == 1 && len(as.Rhs) == 1 && strings.HasSuffix(exprString(as.Lhs[0]), ".Nullable") && exprString(as.Rhs[0]) == "false" {
+						clears = true
+					}
+					return true
+				})
+				return true
+			})
+			n++
+			r.Check(clears, "frontier/openapi-nullable-object-component", "openapi.declareDefinition declares an object component that accepts null", fd.Pos(), "as the struct it describes (the references carry the nullability)",
+				"`Inner: {type: object, nullable: true, properties: {x: string}}` is declared as a nullable struct: Go writes `type Inner *struct{…}` and `func NewInner() *Inner { return &Inner{} }` — invalid composite literal type Inner, no document can be decoded")
+		}
+		if fd := c12Method(p, "walkRef"); fd == nil {
+			r.Undecided("anchor lost: openapi.generator.walkRef")
+		} else {
+			carries := false
+			ast.Inspect(fd.Body, func(m ast.Node) bool {
+				is, ok := m.(*ast.IfStmt)
+				if !ok {
+					return true
+				}
+				sets := false
+				ast.Inspect(is.Body, func(q ast.Node) bool {
+					if as, ok := q.(*ast.AssignStmt); ok && len(as.Lhs) == 1 && strings.HasSuffix(exprString(as.Lhs[0]), ".Nullable") && exprString(as.Rhs[0]) == "true" {
+						sets = true
+					}
+					return true
+				})
+				if !sets {
+					return true
+				}
+				// the condition speaks of the properties of the referred schema, itself or through a helper
+				ast.Inspect(is.Cond, func(q ast.Node) bool {
+					switch x := q.(type) {
+					case *ast.SelectorExpr:
+						if x.Sel.Name == "Properties" {
+							carries = true
+						}
+					case *ast.CallExpr:
+						if f := callee(info, x); f != nil && f.Pkg() == p.Types {
+							if gd, _ := ctx.DeclOf(f); gd != nil && gd.Body != nil && strings.Contains(exprStringOfBody(gd), ".Properties") {
+								carries = true
+							}
+						}
+					}
+					return true
+				})
+				return true
+			})
+			n++
+			r.Check(carries, "frontier/openapi-nullable-object-component", "openapi.walkRef refers to an object component that accepts null", fd.Pos(), "the reference is nullable",
+				"walkRef carries the nullability of the referred component for enums only: once the object component is declared as a plain struct, `inner: {$ref Inner}` (Inner nullable) would refuse {\"inner\": null}")
+		}
+	}
+	// (c)
+	if !roundTrips {
+		n++ // a value that is not written back: not a question of compiling
+	} else if fn := ctx.LookupMethod("internal/jennies/golang", "typeFormatter", "formatField"); fn == nil {
+		r.Undecided("anchor lost: golang.typeFormatter.formatField")
+	} else if fd, _ := ctx.DeclOf(fn); fd != nil {
+		keeps, swaps := false, false
+		ast.Inspect(fd.Body, func(m ast.Node) bool {
+			is, ok := m.(*ast.IfStmt)
+			if !ok || !strings.Contains(exprString(is.Cond), "IsConcreteScalar()") {
+				return true
+			}
+			swaps = true
+			ast.Inspect(is.Body, func(q ast.Node) bool {
+				if as, ok := q.(*ast.AssignStmt); ok && len(as.Lhs) == 1 && strings.HasSuffix(exprString(as.Lhs[0]), ".Nullable") {
+					keeps = true
+				}
+				return true
+			})
+			return true
+		})
+		if swaps {
+			n++
+			r.Check(keeps, "skeleton/go-optional-constant-reference-keeps-presence", "golang.formatField declares a field that refers to a named constant", fd.Pos(), "with the constant's type and the nullability of the field",
+				"formatField replaces a reference to a named constant by the constant's own, non-nullable, type while `,omitempty` is still added for an optional field: `#Zero: 0; #Root: {name: string, offset?: #Zero}` gives `Offset int64 `json:\"offset,omitempty\"`` — the accepted document {\"name\":\"a\",\"offset\":0} is re-encoded {\"name\":\"a\"} (the inline `offset?: 0` is a pointer and round-trips)")
+		}
+	}
+	r.Count("hunted clauses of the decode rules (7th round)", n)
+	r.Floor("hunted clauses of the decode rules (7th round)", 5)
+}
+
+func exprStringOfBody(fd *ast.FuncDecl) string {
+	var b strings.Builder
+	ast.Inspect(fd.Body, func(m ast.Node) bool {
+		if sel, ok := m.(*ast.SelectorExpr); ok {
+			b.WriteString("." + sel.Sel.Name + " ")
+		}
+		return true
+	})
+	return b.String()
 }
